@@ -688,6 +688,7 @@ fn lease_scenario_svc(sc: &Value, sock: &PacketSock, live: &erbium::config::Shar
     let mut out = vec![];
     let u = sc["U"].as_i64().unwrap_or(4);
     crate::dhcp::set_amap(sc["amap"].as_array().map(|a| a.iter().map(|x| x.as_u64().unwrap() as u32).collect()).unwrap_or_default());
+    crate::dhcp::set_policy_lease_time(&sc["plt"]);
     let pool = erbium::dhcp::pool::Pool::verif_open(std::path::Path::new(DB)).expect("the service's lease file");
     let _ = pool.verif_conn().busy_timeout(std::time::Duration::from_secs(2));
     let _ = pool.verif_conn().execute("DELETE FROM leases", []);
